@@ -48,7 +48,9 @@ def e_insert(rng, text, lang, protect_top=0):
 
 def e_trailing_ws(rng, text, lang, protect_top=0):
     lines = text.split("\n")
-    for i in rng.sample(range(len(lines)), min(len(lines), rng.randint(1, 8))):
+    picks = rng.sample(range(len(lines)), min(len(lines), rng.randint(1, 8)))
+    picks += [i for i, ln in enumerate(lines) if "thailint: ignore" in ln and rng.random() < 0.5]  # an editor leaves blanks after a directive just as easily
+    for i in sorted(set(picks)):
         if not lines[i].rstrip().endswith("\\") and i < len(lines) - 1:
             # blank lines become whitespace-only lines (just as meaning-preserving as trailing blanks after code)
             body, cr = (lines[i][:-1], "\r") if lines[i].endswith("\r") else (lines[i], "")
@@ -160,7 +162,14 @@ def make_base(rng, idx):
         for lang in ("py", "ts", "rs"):
             funcs = [{"name": "fn%d_%s_%d" % (idx, lang, j), "style": rng.choice(["func", "method"]),
                       "block": ctrl.no_lone_if_in_else(ctrl.gen_chain(rng, ctrl.kinds_for(lang), rng.choice([L - 1, L, L, L + 1])))} for j in range(rng.randint(2, 5))]
-            files["pkg/n%d%s" % (idx, ctrl.EXT[lang])] = ctrl.render(lang, funcs, prefix="b%d" % idx)[0]
+            text = ctrl.render(lang, funcs, prefix="b%d" % idx)[0]
+            # some function headers already carry a suppression (bare or naming the rule): an edit that does not touch the directive's words must not revive the finding
+            cmk = "#" if lang == "py" else "//"
+            lines_ = text.split("\n")
+            for li, ln in enumerate(lines_):
+                if re.match(r"\s*(async\s+)?(def|fn|function)\s+fn%d_" % idx, ln) and rng.random() < 0.4:
+                    lines_[li] = ln + "  " + rng.choice(["%s thailint: ignore", "%s thailint: ignore[nesting]", "%s thailint: ignore[nesting.excessive-depth]"]) % cmk
+            files["pkg/n%d%s" % (idx, ctrl.EXT[lang])] = "\n".join(lines_)
         cfg = {"nesting": {"max_nesting_depth": L}}
         cmds = ["nesting"]
     elif kind == 1:
